@@ -968,6 +968,10 @@ func (e *executor) prepareExprDependencies(
 		)
 	}
 	for _, dependency := range dependencies {
+		if len(dependency) < 2 {
+			// The expression refers to the root of the data model itself (`$`).
+			return fmt.Errorf("invalid dependency %s in expression %s", dependency.String(), expr.String())
+		}
 		dependencyKind := dependency[1]
 		switch dependencyKind {
 		case WorkflowInputKey:
